@@ -458,7 +458,18 @@ impl Monitor {
             }
             GOAWAY => {
                 if let (Some(l), Some(c)) = (f.u32_at(0), f.u32_at(4)) {
-                    e.goaway_in.push((l & 0x7fff_ffff, c, f.payload[8..].to_vec()));
+                    let l = l & 0x7fff_ffff;
+                    e.goaway_in.push((l, c, f.payload[8..].to_vec()));
+                    // the peer will not process E's streams above l: E fails them locally and
+                    // they stop occupying concurrency slots, although no frame closes them
+                    let mut freed = 0;
+                    for (sid, s) in e.streams.iter_mut() {
+                        if s.local_init && *sid > l && s.counted_open {
+                            s.counted_open = false;
+                            freed += 1;
+                        }
+                    }
+                    e.open_local -= freed;
                 }
             }
             _ => {}
@@ -873,9 +884,23 @@ impl Monitor {
         if s.end_out && !(s.reserved && !s.hdr_out && !e.is_client) {
             viols.push(("C04", "frame-after-end-stream", format!("{} emitted HEADERS on stream {} after END_STREAM", who, sid)));
         }
+        let mut push_limit_viol: Option<String> = None;
         if s.reserved && !e.is_client && !s.hdr_out {
-            // pushed response head on a reserved(local) stream: opens the send half
+            // pushed response head on a reserved(local) stream: opens the send half; from
+            // here on the stream counts against the client's MAX_CONCURRENT_STREAMS
+            // (RFC 9113 5.1.2: reserved streams do not count, half-closed ones do)
             s.end_out = false;
+            let excluded = e.goaway_in.iter().any(|g| g.0 < sid);
+            if !s.counted_open && s.rst_out == 0 && !s.rst_in && !excluded {
+                s.counted_open = true;
+                e.open_local += 1;
+                e.max_open_local = e.max_open_local.max(e.open_local);
+                if let Some(limit) = e.peer_acked.max_conc {
+                    if e.open_local > limit as i64 {
+                        push_limit_viol = Some(format!("{} opened pushed stream {} as its {}-th concurrently open stream; peer's acknowledged limit is {}", who, sid, e.open_local, limit));
+                    }
+                }
+            }
         }
         // classify the block: 1xx informational / final head / trailers
         let status: Option<u16> = fields.as_ref().and_then(|fl| fl.iter().find(|(n, _)| n == ":status").and_then(|(_, v)| std::str::from_utf8(v).ok().and_then(|x| x.parse().ok())));
@@ -911,6 +936,9 @@ impl Monitor {
         if s.counted_open && s.closed() {
             s.counted_open = false;
             e.open_local -= 1;
+        }
+        if let Some(m) = push_limit_viol {
+            viols.push(("C05", "exceeds-peer-max-concurrent-streams", m));
         }
         for (p, o, m) in viols {
             self.viol(p, o, "HEADERS", m);
